@@ -91,8 +91,11 @@ Proof.
     pose proof (subscribe_wf _ _ _ _ _ _ _ _ _ _ (rw_broker r W) Hb S) as Wb.
     pose proof (subscribe_idgen _ _ _ _ _ _ _ _ _ _ Hb S) as Ib.
     split.
-    + apply wf_set_broker; [exact W|exact Wb|]. intros x Hx. destruct (K x Hx) as [->|Hx']; [exact Cs|].
-      now apply (rw_sess_att r W).
+    + apply wf_set_broker; [exact W|exact Wb| |].
+      * intros x Hx. destruct (K x Hx) as [->|Hx']; [exact Cs|]. now apply (rw_sess_att r W).
+      * pose proof (hist_same_subscribe (broker0 (r_cfg r)) (r_cfg r) (r_broker r) (r_pubgen r) (s_id s) req opts topic
+                                        (rw_broker r W) Hb (rw_hist r W)) as Hh.
+        rewrite S in Hh. exact Hh.
     + apply ids_below_set_broker; [eapply ids_below_mono; [exact I|lia]|lia].
   - (* UNSUBSCRIBE *)
     pose proof (unsubscribe_sess_keys (r_broker r) (r_pubgen r) (s_id s) req sub) as K.
@@ -100,7 +103,11 @@ Proof.
     pose proof (unsubscribe_wf _ _ _ _ _ _ _ _ (rw_broker r W) S) as Wb.
     pose proof (unsubscribe_idgen _ _ _ _ _ _ _ _ S) as Ib.
     apply Up. split.
-    + apply wf_set_broker; [exact W|exact Wb|]. intros x Hx. apply (rw_sess_att r W). now apply K.
+    + apply wf_set_broker; [exact W|exact Wb| |].
+      * intros x Hx. apply (rw_sess_att r W). now apply K.
+      * pose proof (hist_same_unsubscribe (broker0 (r_cfg r)) (r_broker r) (r_pubgen r) (s_id s) req sub
+                                          (rw_broker r W) (rw_hist r W)) as Hh.
+        rewrite S in Hh. exact Hh.
     + apply ids_below_set_broker; [exact I|lia].
   - (* REGISTER *)
     assert (Hd : d_idgen (r_dealer r) < max_idN) by lia.
@@ -274,12 +281,13 @@ Proof.
   change (fold_left _ (meta_proc_names cfg) (empty_dealer, [])) with (fold_left (init_f cfg) (meta_proc_names cfg) (empty_dealer, [])).
   destruct (fold_left (init_f cfg) (meta_proc_names cfg) (empty_dealer, [])) as [d procs]. cbn [fst] in *.
   split.
-  - constructor; cbn [r_meta r_clients r_broker r_dealer r_testaments]; auto.
+  - constructor; cbn [r_meta r_clients r_broker r_dealer r_testaments r_cfg]; auto.
     + intros s [].
     + intros sid H. rewrite preinit_sess in H. cbn in H. congruence.
     + intros sid H. cbn in H. congruence.
     + constructor.
     + intros c x. rewrite Ed. discriminate.
+    + apply hist_same_refl.
   - unfold ids_below, k0. cbn [r_broker r_dealer]. cbn in Ib. split; [lia|]. split; [lia|].
     intros x s E. unfold lookup in E. cbn [r_meta r_clients] in E.
     destruct (N.eqb x meta_id); [inversion E; cbn; lia|discriminate].
